@@ -46,7 +46,7 @@ class Acc:
                     else:
                         r = sub.check(case, self.ctx)
             except CaseTimeout:
-                raise Violation(f"non-termination: case still running after {sub.case_timeout}s", kind="timeout")
+                raise Violation(f"non-termination: case still running after {sub.case_timeout} CPU seconds", kind="timeout")
             except (Violation, Known, Skip, env.HarnessError):
                 raise
             except Exception as e:  # an exception nobody expected: escaped from the code under test
